@@ -219,13 +219,18 @@ def dss_blob(pbits=1024):
     return sstr(b'ssh-dss') + mpint(p) + mpint(rsa_modulus(160)) + mpint(2) + mpint(rsa_modulus(pbits - 1))
 
 
-def cert_blob(kind, host_bits, ca_blob, cert_type=2, host_n=None):
+def cert_blob(kind, host_bits, ca_blob, cert_type=2, host_n=None, fields=None):
     """OpenSSH certificate (PROTOCOL.certkeys).  kind: inner type name, e.g.
-    'ssh-rsa-cert-v01@openssh.com' or 'ssh-ed25519-cert-v01@openssh.com'."""
+    'ssh-rsa-cert-v01@openssh.com' or 'ssh-ed25519-cert-v01@openssh.com'.
+    fields (optional dict of latin-1 strings / ints): nonce, e, serial, key_id, principals (list), valid_after,
+    valid_before, critical_options (list of [name, data]), extensions (list of [name, data]), reserved, signature."""
+    f = fields or {}
+    L1 = lambda v: v.encode('latin-1') if isinstance(v, str) else v
+    opts = lambda l: b''.join(sstr(L1(n)) + sstr(sstr(L1(d)) if d != '' else b'') for n, d in l)
     k = kind.encode() if isinstance(kind, str) else kind
-    b = sstr(k) + sstr(b'N' * 32)
+    b = sstr(k) + sstr(L1(f.get('nonce', 'N' * 32)))
     if k.startswith(b'ssh-rsa'):
-        b += mpint(65537) + mpint(rsa_modulus(host_bits) if host_n is None else host_n)
+        b += mpint(f.get('e', 65537)) + mpint(rsa_modulus(host_bits) if host_n is None else host_n)
     elif k.startswith(b'ssh-ed25519'):
         b += sstr(b'\x22' * 32)
     elif k.startswith(b'ecdsa-sha2-'):
@@ -236,9 +241,9 @@ def cert_blob(kind, host_bits, ca_blob, cert_type=2, host_n=None):
         b += mpint(rsa_modulus(pb)) + mpint(rsa_modulus(160)) + mpint(2) + mpint(rsa_modulus(pb - 1))
     else:
         raise ValueError(kind)
-    b += u64(1) + u32(cert_type) + sstr(b'keyid') + sstr(sstr(b'host.example'))
-    b += u64(0) + u64(2 ** 64 - 1) + sstr(b'') + sstr(b'') + sstr(b'')
-    b += sstr(ca_blob) + sstr(sstr(b'ssh-rsa') + sstr(b'S' * 16))
+    b += u64(f.get('serial', 1)) + u32(cert_type) + sstr(L1(f.get('key_id', 'keyid'))) + sstr(b''.join(sstr(L1(x)) for x in f.get('principals', ['host.example'])))
+    b += u64(f.get('valid_after', 0)) + u64(f.get('valid_before', 2 ** 64 - 1)) + sstr(opts(f.get('critical_options', []))) + sstr(opts(f.get('extensions', []))) + sstr(L1(f.get('reserved', '')))
+    b += sstr(ca_blob) + sstr(L1(f['signature']) if 'signature' in f else sstr(b'ssh-rsa') + sstr(b'S' * 16))
     return b
 
 
